@@ -340,14 +340,16 @@ def finish (st : St) (cid : Nat) (allow : Bool) (items : List Item) (code : Code
 
 /-! ### mailbox mutations -/
 
+/-- the mailbox part of appendBytes: `msg.uid = mbox.uidNext; mbox.uidNext++; mbox.l = append(mbox.l, msg)` -/
+def pushMsg (m : Message) (o : Mbox) : Mbox :=
+  { o with msgs := o.msgs ++ [{ m with uid := o.uidNext }], uidNext := o.uidNext + 1 }
+
 /-- mailbox.go appendBytes: returns the new UID -/
 def appendMsg (st : St) (oid : Nat) (m : Message) : St × Nat :=
   match st.getObj oid with
   | none => (st, 0)
   | some o =>
-    let uid := o.uidNext
-    let st1 := st.setObj oid fun o => { o with msgs := o.msgs ++ [{ m with uid := uid }], uidNext := o.uidNext + 1 }
-    (st1.dispatch oid (.exists_ o.msgs.length (o.msgs.length + 1)) none, uid)
+    ((st.setObj oid (pushMsg m)).dispatch oid (.exists_ o.msgs.length (o.msgs.length + 1)) none, o.uidNext)
 
 /-- mailbox.go copyMsg for a list of messages: returns the destination UIDs in order -/
 def copyMsgs (st : St) (dest : Nat) : List Message → St × List Nat
@@ -357,11 +359,15 @@ def copyMsgs (st : St) (dest : Nat) : List Message → St × List Nat
     let (st2, us) := copyMsgs st1 dest rest
     (st2, u :: us)
 
+/-- `mbox.l = filtered`: the messages at the given positions are gone -/
+def dropSeqs (seqs : List Nat) (o : Mbox) : Mbox :=
+  { o with msgs := ((zipSeq o.msgs).filter fun p => !seqs.contains p.1).map (·.2) }
+
 /-- mailbox.go expungeLocked: queue EXPUNGE for the positions (descending), drop the messages -/
 def expungeSeqs (st : St) (oid : Nat) (seqs : List Nat) : St :=
   let desc := seqs.reverse
   let st1 := st.dispatchAll oid (desc.map Upd.expunge) none
-  st1.setObj oid fun o => { o with msgs := ((zipSeq o.msgs).filter fun (i, _) => !seqs.contains i).map (·.2) }
+  st1.setObj oid (dropSeqs seqs)
 
 /-- mailbox.go Expunge: which messages go (server sequence numbers, ascending) -/
 def expungeEligible (o : Mbox) (uids : Option NumSet.Set) : List Nat :=
@@ -568,6 +574,15 @@ def doFetch (cfg : Cfg) (st : St) (cid : Nat) (uid : Bool) (set : NumSet.Set) (o
     | (st1, none) => (st1, panicResp)
     | (st1, some items) => finish st1 cid uid items
 
+def storeTargets (tg : List (Nat × Message)) (op : StoreOp) (flags : List Str) : List (Nat × Message) :=
+  tg.map fun (i, m) => (i, { m with flags := storeFlags op m.flags flags })
+
+/-- the first loop of Store: `msg.store(flags)` on every addressed message, the FETCH update queued for the
+    other sessions of the mailbox -/
+def storeApply (st : St) (cid : Nat) (o : Mbox) (tg : List (Nat × Message)) (op : StoreOp) (flags : List Str) : St :=
+  let st1 := st.setObj o.id (mapAddressed (tg.map (·.2.uid)) fun fl => storeFlags op fl flags)
+  st1.dispatchAll o.id ((storeTargets tg op flags).map fun (i, m) => Upd.fetch i m.uid m.flags) (some cid)
+
 /-- mailbox.go Store -/
 def doStore (cfg : Cfg) (st : St) (cid : Nat) (uid : Bool) (set : NumSet.Set) (op : StoreOp) (silent : Bool)
     (flags : List Str) : St × Resp :=
@@ -575,9 +590,8 @@ def doStore (cfg : Cfg) (st : St) (cid : Nat) (uid : Bool) (set : NumSet.Set) (o
   | none => (st, badClient)
   | some (c, o) =>
     let tg := addressed c o uid set
-    let tg' := tg.map fun (i, m) => (i, { m with flags := storeFlags op m.flags flags })
-    let st1 := st.setObj o.id (mapAddressed (tg.map (·.2.uid)) fun fl => storeFlags op fl flags)
-    let st2 := st1.dispatchAll o.id (tg'.map fun (i, m) => Upd.fetch i m.uid m.flags) (some cid)
+    let tg' := storeTargets tg op flags
+    let st2 := storeApply st cid o tg op flags
     if silent then finish st2 cid uid []
     else
       match fetchTargets cfg st2 c o tg' { flags := true } with
